@@ -245,6 +245,63 @@ func FarCopies(variant int, seed uint64) []byte {
 	return b
 }
 
+// UniformWithMatches: every byte value occurs exactly r times as a literal (r pseudo-random permutations of 0..255 cut
+// into 32-byte chunks), and right after each chunk come copies of the chunk's tail: lengths 4, 5, ..., 4+m occur
+// c<<m, c<<(m-1), ..., c times (counts halving with the length), optionally one more length once. The copies sit a
+// few bytes behind their source, so every match finder sees them. The literal/length code then has 256 or more
+// symbols of one length and a chain of shorter and longer ones.
+func UniformWithMatches(r, m, c int, single bool, seed uint64) []byte {
+	rg := newRng(seed ^ uint64(r*1000+m*10+c) ^ 0x5eed)
+	var p []byte
+	for i := 0; i < r; i++ {
+		perm := make([]byte, 256)
+		for j := range perm {
+			perm[j] = byte(j)
+		}
+		for j := 255; j > 0; j-- {
+			k := int(rg.next() % uint64(j+1))
+			perm[j], perm[k] = perm[k], perm[j]
+		}
+		p = append(p, perm...)
+	}
+	var lengths []int
+	if single {
+		lengths = append(lengths, 4+m+2)
+	}
+	for j := m; j >= 0; j-- {
+		for n := 0; n < c<<uint(m-j); n++ {
+			lengths = append(lengths, 4+j)
+		}
+	}
+	const chunk = 32
+	body := len(p) - 8 // the last 8 input bytes are always emitted as literals
+	nfull := body / chunk
+	per := make([][]int, nfull)
+	for i, l := range lengths {
+		per[i%nfull] = append(per[i%nfull], l)
+	}
+	out := make([]byte, 0, len(p)+8*len(lengths))
+	for lo := 0; lo < body; lo += chunk {
+		hi := lo + chunk
+		if hi > body {
+			hi = body
+		}
+		out = append(out, p[lo:hi]...)
+		if lo/chunk >= nfull {
+			continue
+		}
+		end := chunk - 1
+		for _, l := range per[lo/chunk] {
+			if end-l < 0 {
+				end = chunk - 1
+			}
+			out = append(out, p[lo+end-l:lo+end]...)
+			end--
+		}
+	}
+	return append(out, p[body:]...)
+}
+
 // Kinds lists content kinds by name for ladders.
 var Kinds = []string{"zero", "rand", "r3", "text", "per7", "fib"}
 
